@@ -33,12 +33,27 @@ def fname(f):
     return getattr(f, "__name__", None) or getattr(getattr(f, "py_func", None), "__name__", "?")
 
 
-def regen(ctx=None):
-    import numpy as np
-    import umap.umap_ as U
-    import umap.distances as D
-    import umap.sparse as S
+def regen(ctx=None, parts=("constants", "registry", "knn", "seeded")):
+    """rewrite the requested Generated files from the live package; returns True if anything changed"""
+    changed = []
+    if "constants" in parts:
+        changed.append(("Constants", regen_constants()))
+    if "registry" in parts:
+        changed.append(("Registry", regen_registry()))
+    if "knn" in parts:
+        changed.append(("KnnDecision", regen_knn_decision()))
+    if "seeded" in parts:
+        changed.append(("Seeded", regen_seeded()))
+    write_if_changed(os.path.join(LEAN, "Generated.lean"),
+                     "-- root of the Generated library (rewritten from the live /repo by harness/regen.py)\n"
+                     "import Generated.Constants\nimport Generated.Registry\nimport Generated.KnnDecision\nimport Generated.Seeded\n")
+    if ctx is not None:
+        ctx.notes.append("regen: " + ", ".join(f"{n} changed={c}" for n, c in changed))
+    return any(c for _, c in changed)
 
+
+def regen_constants():
+    import umap.umap_ as U
     out = []
     out.append("/- GENERATED from the live /repo package by harness/regen.py — do not edit. -/")
     out.append("namespace Umap.Generated\n")
@@ -55,8 +70,12 @@ def regen(ctx=None):
     out.append("def disconnectionDistances : List (String × Rat) := [" +
                ", ".join(f"({lstr(k)}, {rat(v)})" for k, v in dd) + "]")
     out.append("\nend Umap.Generated")
-    c1 = write_if_changed(os.path.join(LEAN, "Generated", "Constants.lean"), "\n".join(out) + "\n")
+    return write_if_changed(os.path.join(LEAN, "Generated", "Constants.lean"), "\n".join(out) + "\n")
 
+
+def regen_registry():
+    import umap.distances as D
+    import umap.sparse as S
     out = []
     out.append("/- GENERATED from the live /repo package by harness/regen.py — do not edit. -/")
     out.append("namespace Umap.Generated\n")
@@ -74,18 +93,7 @@ def regen(ctx=None):
     out.append("def discreteMetrics : List String := [" +
                ", ".join(lstr(x) for x in sorted(D.DISCRETE_METRICS)) + "]")
     out.append("\nend Umap.Generated")
-    c2 = write_if_changed(os.path.join(LEAN, "Generated", "Registry.lean"), "\n".join(out) + "\n")
-    write_if_changed(os.path.join(LEAN, "Generated.lean"),
-                     "-- root of the Generated library (rewritten from the live /repo by harness/regen.py)\n"
-                     "import Generated.Constants\nimport Generated.Registry\n")
-    c3 = regen_knn_decision()
-    c3 = regen_seeded() or c3
-    write_if_changed(os.path.join(LEAN, "Generated.lean"),
-                     "-- root of the Generated library (rewritten from the live /repo by harness/regen.py)\n"
-                     "import Generated.Constants\nimport Generated.Registry\nimport Generated.KnnDecision\nimport Generated.Seeded\n")
-    if ctx is not None:
-        ctx.notes.append(f"regen: Constants changed={c1}, Registry changed={c2}, KnnDecision changed={c3}")
-    return c1 or c2 or c3
+    return write_if_changed(os.path.join(LEAN, "Generated", "Registry.lean"), "\n".join(out) + "\n")
 
 
 def observe_knn_decision(cols, k, rows, n, force):
